@@ -8,8 +8,8 @@ Import ListNotations.
 Local Open Scope string_scope. Local Open Scope list_scope.
 
 (* the checker accepts only crates satisfying the declarative predicate [wf_crate] (Crate/Spec.v): every element
-   of @graph has a string @id; @ids are unique; every non-web reference resolves; every File entity is in the
-   archive with the recorded checksum/size; every run value is represented; the actions of a step are the records
+   of @graph has a string @id; @ids are unique; every non-web reference resolves; every File entity records a sha1
+   and is in the archive with the recorded checksum/size; every run value is represented; the actions of a step are the records
    of its jobs (what each consumed and produced) *)
 Theorem C34_checker_sound : forall g ar vs ss, crate_ok g ar vs ss = true -> wf_crate g ar vs ss.
 Proof. exact crate_ok_sound. Qed.
@@ -17,6 +17,11 @@ Proof. exact crate_ok_sound. Qed.
 (* ... and it rejects no crate that satisfies it: a rejection by the checker is a real defect of the crate *)
 Theorem C34_checker_complete : forall g ar vs ss, wf_crate g ar vs ss -> crate_ok g ar vs ss = true.
 Proof. exact crate_ok_complete. Qed.
+
+(* the same for the whole metadata document, which is what the check evaluates on every exported crate: an object
+   with an @context whose @graph is an array forming a well-formed crate *)
+Theorem C34_document_checker_exact : forall m ar vs ss, doc_ok m ar vs ss = true <-> wf_doc m ar vs ss.
+Proof. exact doc_ok_iff. Qed.
 
 (* the executable collection of references is exactly "occurs as a reference object at any depth" *)
 Theorem C34_refs_exact : forall j s, In s (vrefs j) <-> VRef j s.
@@ -136,8 +141,27 @@ Example C34_mini_job_without_action_rejected :
     [ SV "wf.cwl#s1" [Job [VItem (IFile "f1" 6)] false None; Job [VItem (IFile "g2" 3)] false None] ] = false.
 Proof. vm_compute. reflexivity. Qed.
 
+(* the document level, a File entity without checksum, a list of directories *)
+Example C34_mini_document :
+  doc_ok (JObj [("@context", JStr "https://w3id.org/ro/crate/1.1/context"); ("@graph", JArr mini)]) mini_ar mini_vs mini_ss = true /\
+  doc_ok (JObj [("@graph", JArr mini)]) mini_ar mini_vs mini_ss = false /\
+  doc_ok (JObj [("@context", JNull); ("@graph", JObj [])]) mini_ar mini_vs mini_ss = false.
+Proof. vm_compute. repeat split; reflexivity. Qed.
+Example C34_mini_file_without_sha1_rejected :
+  crate_ok (mini ++ [JObj [("@id", JStr "h3"); ("@type", JStr "File")]]) (("h3", "h3", 1%N) :: mini_ar) mini_vs mini_ss = false /\
+  crate_ok (mini ++ [JObj [("@id", JStr "h3"); ("@type", JStr "File"); ("sha1", JStr "h3")]]) (("h3", "h3", 1%N) :: mini_ar) mini_vs mini_ss = true.
+Proof. vm_compute. split; reflexivity. Qed.
+Example C34_mini_directory_list :
+  crate_ok (mini ++ [JObj [("@id", JStr "#dl"); ("@type", JStr "PropertyValue"); ("value", JArr [ref "dd"; ref "dd/sub"]);
+                           ("exampleOfWork", ref "wf.cwl#o")]]) mini_ar mini_vs
+    [ SV "wf.cwl#s1" [Job [VList [IDir [("f2", 2%N)]; IDir [("f2", 2%N)]]] false None] ] = false /\
+  item_ok mini mini_ar (ref "dd") (IDir [("f2", 2%N)]) = true /\ item_ok mini mini_ar (ref "dd") (IDir [("f2", 3%N)]) = false /\
+  item_ok mini mini_ar (ref "f1") (IDir []) = false.
+Proof. vm_compute. repeat split; reflexivity. Qed.
+
 Print Assumptions C34_checker_sound.
 Print Assumptions C34_checker_complete.
+Print Assumptions C34_document_checker_exact.
 Print Assumptions C34_refs_exact.
 Print Assumptions C34_reach_exact.
 Print Assumptions C34_lookup_unique.
